@@ -381,6 +381,10 @@ def check_project(args):
                   for i, rr, outs, anc in enc_steps)
     srcs = ','.join(str(P(p)) for p in sorted(sources))
     res['wf_case'] = ['wf', [gs, srcs]]
+    # the harness-side reader's view of the manifest, for cross-validation against the Coq reader of C04
+    res['ninja_text'] = open(os.path.join(root, 'pristine', 'build.ninja'), encoding='utf-8').read()
+    res['ninja_py_view'] = [[b.outs, b.implicit_outs, b.rule, b.ins, b.implicit, b.order_only] for b in m.builds]
+    res['ninja_py_cmds'] = {m.builds[i].outs[0]: m.command(m.builds[i]) for i in ref}
     res['paths'] = {v: k for k, v in pid.items()}
     res['enc_steps'] = [(i, rr, outs, anc) for i, rr, outs, anc in enc_steps]
     res['orders'] = {}
@@ -444,6 +448,46 @@ def check_project(args):
     shutil.rmtree(os.path.join(root, 'pristine'), ignore_errors=True)
     shutil.rmtree(proj.b, ignore_errors=True)
     return res
+
+
+def cross_validate_reader(ctx, results):
+    """harness/ninja_py.py (which the executor relies on) against the Coq manifest reader of C04
+    (coq/Graph/Manifest.v, extracted): statements and expanded commands must agree."""
+    r = subprocess.run(['timeout', '900', 'make', '-C', COQ, '-j%d' % NPROC, 'Graph/Extract.vo'], capture_output=True, text=True)
+    if r.returncode != 0:
+        ctx.extra['reader_cross_validation'] = 'skipped: Graph/Extract.vo does not build'
+        return
+    c4 = Ctx('C05')
+    c4.build_driver('C04')
+    S1, S2, S3, S4 = '\x01', '\x02', '\x03', '\x04'
+    norm = lambda p: os.path.normpath(p) if p else p
+    nst = ncmd = 0
+    for res in results:
+        if 'ninja_text' not in res:
+            continue
+        text = res['ninja_text']
+        out = c4.run_model([('parse', [text])])[0]
+        if out.startswith('ERR:'):
+            raise HarnessError('Coq manifest reader rejects a build.ninja that meson wrote (project %d): %s' % (res['idx'], out[:200]))
+        sections = out.split(S4)
+        stmts = [x.split(S1) for x in sections[1].split(S3)] if len(sections) > 1 and sections[1] else []
+        lst = lambda x: [norm(y) for y in x.split(S2) if y]
+        coq_view = [[lst(f[0]), lst(f[1]), f[2], lst(f[3]), lst(f[4]), lst(f[5])] for f in stmts]
+        py_view = [[[norm(y) for y in o], [norm(y) for y in io], rule, [norm(y) for y in i], [norm(y) for y in im], [norm(y) for y in oo]]
+                   for o, io, rule, i, im, oo in res['ninja_py_view']]
+        if coq_view != py_view:
+            k = next((j for j in range(min(len(coq_view), len(py_view))) if coq_view[j] != py_view[j]), min(len(coq_view), len(py_view)))
+            raise HarnessError('ninja_py.py and the Coq manifest reader disagree on project %d, statement %d: %r vs %r'
+                               % (res['idx'], k, py_view[k:k + 1], coq_view[k:k + 1]))
+        nst += len(coq_view)
+        outs = list(res['ninja_py_cmds'])
+        cmds = c4.run_model([('command', [text, o]) for o in outs])
+        for o, c in zip(outs, cmds):
+            if c != res['ninja_py_cmds'][o]:
+                raise HarnessError('ninja_py.py and the Coq manifest reader expand the command of %r differently (project %d): %r vs %r'
+                                   % (o, res['idx'], res['ninja_py_cmds'][o][:200], c[:200]))
+            ncmd += 1
+    ctx.extra['reader_cross_validation'] = {'statements_compared': nst, 'commands_compared': ncmd}
 
 
 def replay(ctx):
@@ -514,6 +558,7 @@ def run(ctx):
                 if o != 'T':
                     raise HarnessError('harness produced a non-topological adversarial order for project %d (%s)' % (idx, what))
         ctx.kernel_crosscheck('Graph.SchedEntry', [c for c in cases if len(c[1][0]) < 3000], [o for c, o in zip(cases, outs) if len(c[1][0]) < 3000], limit=40)
+    cross_validate_reader(ctx, results)
     ctx.cov['traces_validated_against_impl'] = len(cases)
     ctx.extra['projects'] = len(results)
     ctx.extra['build_steps_executed_under_strace'] = nsteps
